@@ -152,8 +152,28 @@ def restriction_vocabulary(ctx: Ctx) -> None:
     for key in ("UseType.REQUIRED", "UseType.PROHIBITED", None):
         occ = [x for x in d.dicts_under(at, key) if "min_occurs" in x]
         table[key] = (occ[0]["min_occurs"], occ[0]["max_occurs"]) if len(occ) == 1 and "max_occurs" in occ[0] else None
-    ok = table == {"UseType.REQUIRED": ({"1"}, {"1"}), "UseType.PROHIBITED": ({"0"}, {"0"}), None: ({"0"}, {"1"})}
-    ctx.ob("xs:attribute use -> occurrences: required (1,1), prohibited (0,0), optional (0,1)", ok, at=at, construct="attribute use table", msg="attribute occurrence table changed")
+    use_keys = any(isinstance(k, str) and k.startswith("UseType.") for k in d.keys)
+    if not use_keys:
+        # table form: MODULE_TABLE.get(self.use, DEFAULT) / MODULE_TABLE[self.use] with dict displays as entries
+        def _occ(e: ast.expr | None):
+            if isinstance(e, ast.Name):
+                e = at.module.globals.get(e.id)
+            if isinstance(e, ast.Dict):
+                m_ = {k.value: {unparse(v)} for k, v in zip(e.keys, e.values) if isinstance(k, ast.Constant)}
+                return (m_["min_occurs"], m_["max_occurs"]) if "min_occurs" in m_ and "max_occurs" in m_ else None
+            return None
+
+        table = {}
+        for c in calls_in(at.node):
+            tab = at.module.globals.get(c.func.value.id) if isinstance(c.func, ast.Attribute) and c.func.attr == "get" and isinstance(c.func.value, ast.Name) else None
+            if isinstance(tab, ast.Dict) and len(c.args) == 2 and unparse(c.args[0]) == "self.use":
+                table = {unparse(k): _occ(v) for k, v in zip(tab.keys, tab.values) if k is not None}
+                table[None] = _occ(c.args[1])
+        if not table:
+            ctx.abstain("attribute use -> occurrences table of Attribute.get_restrictions", at=at, why="neither a dispatch on self.use nor a lookup in a constant table")
+    if use_keys or table:
+        ok = table == {"UseType.REQUIRED": ({"1"}, {"1"}), "UseType.PROHIBITED": ({"0"}, {"0"}), None: ({"0"}, {"1"})}
+        ctx.ob("xs:attribute use -> occurrences: required (1,1), prohibited (0,0), optional (0,1)", ok, at=at, construct="attribute use table", msg=f"attribute occurrence table changed: {table}")
 
 
 @rule("C02.R3")
